@@ -508,7 +508,9 @@ class StmtMixin:
                 for b in self.do_with(s2, s, rest, is_async):
                     if b.kind == "undecided":
                         out.append(b); continue
-                    s3 = self.interfere(b.st, s.lineno) if is_async else b.st
+                    k_exit = self.reg.lookup2(base_type(cm.ty), exit_, self.functions, self.reg.contracts)
+                    no_yield = bool(k_exit and self.reg.contracts.get(k_exit, {}).get("no_yield"))
+                    s3 = self.interfere(b.st, s.lineno) if (is_async and not no_yield) else b.st
                     for x in self.call_method(s3, cm, exit_, [], s.lineno, exc=(b.exc if b.kind == "raise" else None)):
                         if not x.ok:
                             out.append(x)
